@@ -18,6 +18,7 @@ from d42.declaration.types import (
 )
 
 NS = dict(gen.NS)
+NS["re"] = re
 
 REQUIRES = "Require Import D42.Declare D42.CaseDeclare."
 
@@ -34,6 +35,13 @@ U0 = "UUID('00000000-0000-0000-0000-000000000000')"
 DT = "datetime.datetime(2020, 1, 2, 3, 4, 5)"
 DTZ = "datetime.datetime(2020, 1, 2, 3, 4, 5, tzinfo=datetime.timezone.utc)"
 DD = "datetime.date(2020, 1, 2)"
+# the ends of the datetime range, naive and with offsets that point outside it: nothing may be computed from the value
+DT_EDGES = ["datetime.datetime.min", "datetime.datetime.max",
+            "datetime.datetime.min.replace(tzinfo=datetime.timezone(datetime.timedelta(hours=5, minutes=30)))",
+            "datetime.datetime.max.replace(tzinfo=datetime.timezone(datetime.timedelta(hours=-8)))",
+            "datetime.datetime.max.replace(tzinfo=datetime.timezone(datetime.timedelta(hours=14)))",
+            "datetime.datetime(1, 1, 1, 0, 0, 1, tzinfo=datetime.timezone(datetime.timedelta(seconds=86399)))",
+            "datetime.datetime(2020, 1, 2, 1, 30, fold=1)"]
 
 
 def _one(meth, srcs):
@@ -102,15 +110,17 @@ OPS = {
             _one("alphabet", COMMON + ["''", "'abn'", "'ab'", "'xabn'"]) +
             _one("contains", COMMON + ["''", "'nan'", "'an'", "'z'", "'b'"]) +
             _one("regex", COMMON + ["'^$'", "'an+a'", "'('", "'a{99999999999}'", "'z'", "''", "'^x'",
-                                    "'[a-b]+$'", "'a**'", "'^.{2}$'", "'(' * 3000 + ')' * 3000"]) +
+                                    "'[a-b]+$'", "'a**'", "'^.{2}$'", "'(' * 3000 + ')' * 3000", "'(?a)(?u)x'", "'(?L)z'",
+                                    # not a str, though it carries one: a compiled pattern (its flags are not part of `.pattern`)
+                                    "re.compile('BANANA', re.I)", "re.compile('an+a')", "re.compile(b'an+a')"]) +
             _len_ops()),
     "list": _one("call", COMMON + LIST_ARGS) + _len_ops(),
     "dict": _one("call", COMMON + DICT_ARGS),
     "any": [("call", (s,)) for s in COMMON] + [("call", a) for a in ANY_ARGS],
     "bytes": _one("call", COMMON + ["b''", "bytearray(b'x')"]),
     "uuid4": _one("call", COMMON + [U4, U1, U0, "'886313e1-3b8a-4372-9b90-0c9aee199e5d'", "5"]),
-    "datetime": _one("call", COMMON + [DT, DTZ, DD, "'2020-01-02'"]),
-    "date": _one("call", COMMON + [DD, DT, "'2020-01-02'"]),
+    "datetime": _one("call", COMMON + [DT, DTZ, DD, "'2020-01-02'"] + DT_EDGES),
+    "date": _one("call", COMMON + [DD, DT, "'2020-01-02'", "datetime.date.min", "datetime.date.max"]),
 }
 
 
@@ -148,7 +158,7 @@ def _compiles(p):
     try:
         re.compile(p)
         return True
-    except (re.error, OverflowError, RecursionError):
+    except Exception:  # noqa - re.error, OverflowError, RecursionError, ValueError (incompatible inline flags: F41)
         return False
 
 
